@@ -406,6 +406,15 @@ pub fn run<B: Backend, W: World>(be: &mut B, w: &W, params: RunParams, seed: u64
                         .iter()
                         .filter(|r| (r.full || r.oldest_age_ns >= 2 * params.policy_period_ns) && r.last_snapshot_age_ns.map(|a| a >= params.reprove_timeout_ns).unwrap_or(true))
                         .collect();
+                    // a policy loop working from a stale view (its bucket was settled, expired or removed meanwhile)
+                    // asks for a key that is not pooled: the answer is None and the pool is unchanged
+                    if sched.chance(1, 5) {
+                        let keys = w.universe_keys();
+                        let key = keys[sched.usize(keys.len())].clone();
+                        if !rows.iter().any(|r| crate::exec::key_of(&key) == r.key) {
+                            let _ = step!(Step::Snapshot { t: now, key });
+                        }
+                    }
                     if !cand.is_empty() {
                         let r = cand[sched.usize(cand.len())];
                         let key = w.universe_keys().into_iter().find(|k| crate::exec::key_of(k) == r.key);
